@@ -144,7 +144,7 @@ def _calls_in(relpath, qual):
     return names
 
 
-@structural("C11/scan/need_flags", props=["C11", "C10", "C07"],
+@structural("C11/scan/need_flags", props=["C11", "C10", "C07", "C04"],
             note="the cached need (_implied_need) is recomputed only for steps flagged _check_after; the graph operations "
                  "that change a step's consumers or attachment must flag: Step.detach / Step.reattach flag the step and its "
                  "products, Step.detach also the source steps of the detached subtree; the first metadata pass writes every "
